@@ -121,6 +121,14 @@ func corpus() []*Spec {
 		// by-format finding: a user hash with the string key __ptype
 		sHash(0, sStr("__ptype"), sStr("SemVer"), sStr("__pvalue"), sStr("1.0.0")), sArr(0, sHash(0, sStr("__ptype"), sStr("Default"))),
 		sHash(0, sStr("a"), sHash(0, sStr("__ptype"), sStr("NoSuchType"), sStr("x"), sInt(1))),
+		// an attribute whose declared default (Timespan 1 s) has a coarse Equals: the default itself, a value that
+		// differs in its whole seconds, and - open finding object-default-coarse-equals - values that differ below
+		// the second (alone, shared, inside a container / a Sensitive / another object)
+		sObj(0, "My::Dur", sInt(1)), sObj(0, "My::Dur", sInt(1), sTimespan(1000000000)), sObj(0, "My::Dur", sInt(1), sTimespan(2500000000)),
+		sObj(0, "My::Dur", sInt(1), sTimespan(-1500000000)), sObj(0, "My::Dur", sInt(1), sTimespan(500000000)),
+		sObj(0, "My::Dur", sInt(1), sTimespan(1500000000)), sObj(0, "My::Dur", sInt(2), sTimespan(1000000001)),
+		sArr(0, sObj(31, "My::Dur", sInt(3), sTimespan(1999999999)), sObj(31, "My::Dur", sInt(3), sTimespan(1999999999)), sSens(0, sObj(0, "My::Dur", sInt(4), sTimespan(1250000000)))),
+		sObj(0, "My::Wrap", sObj(0, "My::Dur", sInt(5), sTimespan(1500000000)), sObj(0, "My::Dur", sInt(5), sTimespan(3000000000))),
 	}
 }
 
